@@ -193,9 +193,21 @@ func (f *File) Read(p []byte) (int, error) {
 	return f.f.Read(p)
 }
 
-func (f *File) ReadAt(p []byte, off int64) (int, error) { return f.f.ReadAt(p, off) }
+func (f *File) ReadAt(p []byte, off int64) (int, error) {
+	if f == nil {
+		return 0, os.ErrInvalid
+	}
+	return f.f.ReadAt(p, off)
+}
 
-func (f *File) Seek(off int64, whence int) (int64, error) { return f.f.Seek(off, whence) }
+// A nil *os.File answers os.ErrInvalid from every method but Name and Fd; the wrapper must do the same (a nil
+// wrapper that panicked in Seek was a false alarm of C01: Verify's rescan on a session another request had ended).
+func (f *File) Seek(off int64, whence int) (int64, error) {
+	if f == nil {
+		return 0, os.ErrInvalid
+	}
+	return f.f.Seek(off, whence)
+}
 
 func (f *File) Write(p []byte) (int, error) {
 	if f == nil {
@@ -221,6 +233,9 @@ func (f *File) Write(p []byte) (int, error) {
 func (f *File) WriteString(s string) (int, error) { return f.Write([]byte(s)) }
 
 func (f *File) WriteAt(p []byte, off int64) (int, error) {
+	if f == nil {
+		return 0, os.ErrInvalid
+	}
 	_, _, err := pre("write", f.name, "", true, len(p))
 	if err != nil {
 		return 0, err
@@ -240,11 +255,24 @@ func (f *File) Close() error {
 	return f.f.Close()
 }
 
-func (f *File) Stat() (fs.FileInfo, error) { return f.f.Stat() }
+func (f *File) Stat() (fs.FileInfo, error) {
+	if f == nil {
+		return nil, os.ErrInvalid
+	}
+	return f.f.Stat()
+}
 
-func (f *File) Sync() error { return f.f.Sync() }
+func (f *File) Sync() error {
+	if f == nil {
+		return os.ErrInvalid
+	}
+	return f.f.Sync()
+}
 
 func (f *File) Truncate(size int64) error {
+	if f == nil {
+		return os.ErrInvalid
+	}
 	_, _, err := pre("truncate", f.name, "", true, 0)
 	if err != nil {
 		return err
@@ -254,15 +282,28 @@ func (f *File) Truncate(size int64) error {
 	return err
 }
 
-func (f *File) Chmod(m fs.FileMode) error { return f.f.Chmod(m) }
+func (f *File) Chmod(m fs.FileMode) error {
+	if f == nil {
+		return os.ErrInvalid
+	}
+	return f.f.Chmod(m)
+}
 
 func (f *File) ReadDir(n int) ([]fs.DirEntry, error) {
+	if f == nil {
+		return nil, os.ErrInvalid
+	}
 	ents, err := f.f.ReadDir(n)
 	sortEntries(ents)
 	return ents, err
 }
 
-func (f *File) Readdirnames(n int) ([]string, error) { return f.f.Readdirnames(n) }
+func (f *File) Readdirnames(n int) ([]string, error) {
+	if f == nil {
+		return nil, os.ErrInvalid
+	}
+	return f.f.Readdirnames(n)
+}
 
 var _ io.ReadWriteSeeker = (*File)(nil)
 
